@@ -206,6 +206,137 @@ func init() {
 		}
 		l.p("/-- `runPersistState` persists once more after its tick loop ended -/")
 		l.p("def finalPersistAfterLoop : Bool := %s", leanBool(finalPersist))
+		// --- fix e59ee79: forwarder.json is written aside and renamed over ---------------------------------------------
+		atomicState := false
+		stp := loadFwPkg("pkg/storage")
+		if fd := stp.method("fileStorage", "WriteData"); fd == nil {
+			problem("storage.fileStorage.WriteData not found")
+		} else {
+			evs := stp.flatten(fd, 2)
+			iWrite := -1
+			for i, e := range evs {
+				if e.kind == "call" && (e.name == "WriteFile" || e.name == "Write") && iWrite < 0 {
+					iWrite = i
+				}
+			}
+			if iWrite < 0 {
+				problem("storage.fileStorage.WriteData: no WriteFile / Write call found")
+			}
+			for i, e := range evs {
+				if e.kind == "call" && e.name == "Rename" && iWrite >= 0 && i > iWrite {
+					atomicState = true
+				}
+			}
+		}
+		l.p("/-- `fileStorage.WriteData` writes the new content to another name and renames it over the state file (fix e59ee79) -/")
+		l.p("def stateFileReplacedAtomically : Bool := %s", leanBool(atomicState))
+
+		// --- fixes b3f8b31 / 23be637: the rpc client reports a failed EnsurePipe and a query answer it could not decode ----
+		rp := loadFwPkg("api/rpc")
+		// returnsResultOf: the variable that receives (the idx-th result of) a call of `callee` in fd is what a later return
+		// statement returns; -1 = the call was not found
+		returnsResultOf := func(fd *ast.FuncDecl, callee string, idx int) int {
+			name, at := "", token.NoPos
+			direct := false
+			ast.Inspect(fd.Body, func(n ast.Node) bool {
+				switch x := n.(type) {
+				case *ast.AssignStmt:
+					if len(x.Rhs) == 1 {
+						if c, ok := x.Rhs[0].(*ast.CallExpr); ok && fwCallee(c) == callee && idx < len(x.Lhs) {
+							if id, ok := x.Lhs[idx].(*ast.Ident); ok && id.Name != "_" {
+								name, at = id.Name, x.Pos()
+							}
+						}
+					}
+				case *ast.ReturnStmt:
+					for _, r := range x.Results {
+						if c, ok := r.(*ast.CallExpr); ok && fwCallee(c) == callee {
+							direct = true
+						}
+					}
+				}
+				return true
+			})
+			if direct {
+				return 1
+			}
+			if name == "" {
+				return -1
+			}
+			res := 0
+			ast.Inspect(fd.Body, func(n ast.Node) bool {
+				if r, ok := n.(*ast.ReturnStmt); ok && r.Pos() > at {
+					for _, e := range r.Results {
+						if id, ok := e.(*ast.Ident); ok && id.Name == name {
+							res = 1
+						}
+					}
+				}
+				return true
+			})
+			return res
+		}
+		ensureReports := false
+		if fd := rp.method("Client", "EnsurePipe"); fd == nil {
+			problem("rpc.Client.EnsurePipe not found")
+		} else {
+			switch returnsResultOf(fd, "EnsurePipe", 0) {
+			case -1:
+				problem("rpc.Client.EnsurePipe: the call of the pipes client's EnsurePipe was not found")
+			case 1:
+				ensureReports = true
+			}
+		}
+		l.p("/-- `rpc.Client.EnsurePipe` returns the error of the call it makes (fix b3f8b31) -/")
+		l.p("def ensurePipeReportsFailure : Bool := %s", leanBool(ensureReports))
+		decodeReported := false
+		if fd := rp.method("clntQuerier", "Query"); fd == nil {
+			problem("rpc.clntQuerier.Query not found")
+		} else {
+			switch returnsResultOf(fd, "unmarshalQueryResult", 1) {
+			case -1:
+				problem("rpc.clntQuerier.Query: the call of unmarshalQueryResult was not found")
+			case 1:
+				decodeReported = true
+			}
+		}
+		l.p("/-- `clntQuerier.Query` returns the error of `unmarshalQueryResult` (fix 23be637) -/")
+		l.p("def queryReturnsDecodeError : Bool := %s", leanBool(decodeReported))
+
+		// --- fix 1b7795d: every early return of worker.run before the poll loop stores wsStopped first ---------------------
+		marksStopped := false
+		if run != nil {
+			evs := fp.flatten(run, 0)
+			iLoop := -1
+			for i, e := range evs {
+				if len(e.loops) > 0 && iLoop < 0 {
+					iLoop = i
+				}
+			}
+			nEarly, nMarked := 0, 0
+			for i, e := range evs {
+				if e.kind != "guard" || e.name != "return" || (iLoop >= 0 && i > iLoop) {
+					continue
+				}
+				nEarly++
+				var body ast.Node
+				switch x := e.node.(type) {
+				case *ast.IfStmt:
+					body = x.Body
+				case *ast.CaseClause:
+					body = &ast.BlockStmt{List: x.Body}
+				}
+				if body != nil && fwCallsNamed(body, "StoreInt32") && fwMentions(body, "wsStopped") {
+					nMarked++
+				}
+			}
+			if nEarly == 0 {
+				problem("forwarder worker: no early return before the poll loop found in worker.run")
+			}
+			marksStopped = nEarly > 0 && nMarked == nEarly
+		}
+		l.p("/-- every early return of `worker.run` before its poll loop stores `wsStopped` first (fix 1b7795d) -/")
+		l.p("def workerMarksStoppedOnStartError : Bool := %s", leanBool(marksStopped))
 		l.write()
 	}
 }
